@@ -110,7 +110,7 @@ def print_assumptions(prop_file):
 
 
 def build_replayer():
-    srcs = coq_sources() + [os.path.join(REPLAY, "main.ml"), os.path.join(REPLAY, "monitors.ml"), os.path.join(REPLAY, "shared.ml"), os.path.join(REPLAY, "smonitors.ml"),
+    srcs = coq_sources() + [os.path.join(REPLAY, "main.ml"), os.path.join(REPLAY, "monitors.ml"), os.path.join(REPLAY, "shared.ml"), os.path.join(REPLAY, "smonitors.ml"), os.path.join(REPLAY, "lease.ml"),
                             os.path.join(REPLAY, "build.sh")]
     exe = os.path.join(REPLAY, "replay.exe")
     if newer(srcs, exe):
@@ -136,6 +136,11 @@ def build_harness():
     if rc != 0:
         return None, out
     return exe, out
+
+
+def azblob_dir():
+    rc, out = sh("go list -m -f '{{.Dir}}' github.com/Azure/azure-storage-blob-go", cwd=REPO, env=GOENV, timeout=120)
+    return out.strip().splitlines()[-1] if rc == 0 and out.strip() else ""
 
 
 def run_family(exe, test, family, seed, n, outdir, shards=None, extra_env=None, watchdog=25):
